@@ -341,8 +341,11 @@ void threshold_optimal
     {
         for (std::size_t i = 0; i < src_view.num_channels(); i++)
         {
-            detail::otsu_impl
-                (nth_channel_view(src_view, i), nth_channel_view(dst_view, i), direction);
+            // the i-th channel of the color space in both views: their layouts may differ (rgb and bgr)
+            detail::otsu_impl(
+                nth_channel_view(src_view, detail::physical_channel_index<SrcView>(i)),
+                nth_channel_view(dst_view, detail::physical_channel_index<DstView>(i)),
+                direction);
         }
     }
 }
